@@ -2,7 +2,7 @@
 run next to the real plugin object. Twin of lean/ERP/Spec/Lifecycle.lean."""
 import mock
 
-from . import impl, suites
+from . import impl, suites, guard
 from .gen import in_region
 
 END_EVENTS = ("PRINT_DONE", "PRINT_FAILED", "PRINT_CANCELLING", "PRINT_CANCELLED", "ERROR")
@@ -32,6 +32,7 @@ def excluded(regions, x, y):
     return any(r.containsPoint(x, y) for r in regions)
 
 
+@guard.violation_on_hang(lambda m: [m])
 def judge_plugin(st0, ops, props=None, classify=True):
     """Run ops on a real plugin; returns list of violation strings for the requested properties."""
     props = set(props or ["C10", "C11", "C12", "C13", "C15"])
@@ -215,6 +216,7 @@ def judge_plugin(st0, ops, props=None, classify=True):
     return out
 
 
+@guard.violation_on_hang(lambda m: [m])
 def c10_fresh(st0, history, program):
     """C10: outputs after PRINT_STARTED equal those of a freshly initialised plugin with the same
     regions and settings. history/program: plugin ops; program only gcode/at/script ops."""
